@@ -29,7 +29,7 @@ func init() {
 	}
 	Registry["C15"] = &Check{
 		Scenarios: c15Scenarios,
-		Rule: "Server.Serve with three connections plus a fourth offered after the fault; accept script: every placement of <=2 temporary accept errors among the offers; connection A (whose first handler has requested CloseNotify when the fault is at position 3, so the notifier goroutine is running) suffers one fault from {handler panic, undecodable header with trailing bytes, disconnect in the middle of a message} at every position 1..3 of its three-message sequence; connections B, C and D exchange two request/answer pairs each with bodies that name their connection (the handler checks that the body belongs to the header); C and D are offered only after A's fault, and C's first message is held inside its body until D has been served completely (so a read buffer shared across connections is overwritten); every ordering of environment steps, timers and blocking hand-overs at preemption bound 0 (quick: each accept placement with three of the nine fault/position pairs; thorough: the full product, and preemption bound 1 for the placement without accept errors); back-off sleeps run on the virtual clock.",
+		Rule: "Server.Serve with three connections plus a fourth offered after the fault; accept script: every placement of <=2 temporary accept errors among the offers; connection A suffers one fault from {handler panic, undecodable header with trailing bytes, disconnect in the middle of a message} at every position 1..3 of its three-message sequence; connections B, C and D exchange two request/answer pairs each with bodies that name their connection (the handler checks that the body belongs to the header); C and D are offered only after A's fault, and C's first message is held inside its body until D has been served completely (so a read buffer shared across connections is overwritten); every ordering of environment steps, timers and blocking hand-overs at preemption bound 0 (quick: each accept placement with three of the nine fault/position pairs; thorough: the full product, and preemption bound 1 for the placement without accept errors); back-off sleeps run on the virtual clock. Three further scenarios (preemption bound 1, thorough 2) put the fault at the third message of a connection whose first handler has requested CloseNotify, so that the notifier goroutine is running when the connection fails.",
 		Assume: []string{"data-race freedom between visible operations (audited separately with -race)"},
 		QuickBudget: 150, ThoroughBudget: 2400,
 	}
@@ -368,9 +368,6 @@ func c15Scenarios(tier string) []*Scenario {
 				if fault == "panic" {
 					o.panicAt["A"] = pos
 				}
-				if pos == 3 {
-					o.notifyOn = "A" // CloseNotify is active on the connection when the fault happens
-				}
 				o.fault = func(name string, c *vnet.Conn, ci int) bool {
 					if name != "A" {
 						return false
@@ -440,6 +437,62 @@ func c15Scenarios(tier string) []*Scenario {
 					Outcome: outcome, Bound: b, Horizon: 20 * time.Second})
 			}
 		}
+	}
+	// CloseNotify active on the faulty connection (its first handler requested it, so the notifier
+	// goroutine is running) when the fault happens at the third message; one healthy connection
+	for _, fault := range faults {
+		fault := fault
+		o := srvOpts{names: []string{"A", "B"}, nmsg: 2, pattern: map[string]string{"B": "each"}, panicAt: map[string]int{}, reports: true, notifyOn: "A"}
+		if fault == "panic" {
+			o.panicAt["A"] = 3
+		}
+		o.fault = func(name string, c *vnet.Conn, ci int) bool {
+			if name != "A" {
+				return false
+			}
+			c.Deliver(srvReq(ci, 0))
+			c.Deliver(srvReq(ci, 1))
+			switch fault {
+			case "panic":
+				c.Deliver(srvReq(ci, 2))
+			case "garbage":
+				bad := make([]byte, 20)
+				bad[0], bad[3] = 1, 60
+				bad[5], bad[6], bad[7] = 0xff, 0xff, 0xfe
+				c.Deliver(append(bad, make([]byte, 40)...))
+			case "cut":
+				m := srvReq(ci, 2)
+				c.Deliver(m[:len(m)-7])
+				c.PeerEOF()
+			}
+			return true
+		}
+		check := func(s *vs.Sched) string {
+			st := srvSt
+			v, handled := srvAnalyse(st, o.names)
+			if handled["B"] != 2 || fmt.Sprint(answersOn(st.conns["B"])) != "[1 2]" {
+				v = append(v, fmt.Sprintf("healthy connection B: %d of 2 requests handled, answers %v", handled["B"], answersOn(st.conns["B"])))
+			}
+			if st.conns["B"].Closed {
+				v = append(v, "healthy connection B was closed")
+			}
+			if !st.conns["A"].Closed {
+				v = append(v, "the faulty connection's transport was not closed")
+			}
+			if st.served {
+				v = append(v, "Serve returned")
+			}
+			for _, p := range s.Panics() {
+				v = append(v, "panic escaped (an unrecovered panic in a library goroutine ends the process): "+p)
+			}
+			return strings.Join(v, " | ")
+		}
+		b := 1
+		if tier == "thorough" {
+			b = 2
+		}
+		out = append(out, &Scenario{Name: "faults/closenotify-active/" + fault + "@3", Body: srvBody(o), Check: check, Bound: b, Horizon: 20 * time.Second, Weight: 5,
+			Outcome: func(s *vs.Sched) string { return fmt.Sprintf("events=%d end=%v", len(srvSt.events), s.EndTime) }})
 	}
 	return out
 }
